@@ -2,7 +2,7 @@
  * src/sincs/donecount.c (white-box include) inside a 1x1 runtime.  The geometry statics (num_sheps, num_wps, cacheline)
  * are set by hand, qthread_shep() / qthread_readstate(CURRENT_WORKER) are replaced by variables, and the reduction
  * operator records the offset of the slot it is handed.  Only used when Gen/Tie_Sinc.v no longer checks.
- *   G sheps wps cacheline size  -> g <sizeof_shep_value_part> <offsets of the sheps*wps slots collate visits, in order>
+ *   G sheps wps cacheline size  -> g <sizeof_shep_value_part>
  *   S sheps wps cacheline size shep worker -> s <offset of the slot submit updates> <offset qt_sinc_tmpdata returns>
  */
 #include <stdio.h>
